@@ -96,12 +96,14 @@ class BBUnitaryChecker(ast.NodeVisitor):
         self._check_call(node, node.tensor_ty)
 
     def visit_BarrierExpr(self, node: BarrierExpr) -> None:
-        # Barrier is always allowed
-        pass
+        # Barrier is always allowed, but its arguments still have to be checked
+        for arg in node.args:
+            self.visit(arg)
 
     def visit_StateResultExpr(self, node: StateResultExpr) -> None:
-        # StateResult is always allowed
-        pass
+        # StateResult is always allowed, but its arguments still have to be checked
+        for arg in node.args:
+            self.visit(arg)
 
     def _check_assign(self, node: ast.Assign | ast.AnnAssign | ast.AugAssign) -> None:
         if UnitaryFlags.Dagger in self.flags:
